@@ -221,6 +221,13 @@ func (data stageData) getStageFileList(atoms atom.AtomSlice) (*stage.FileList, e
 			return nil, err
 		}
 	}
+	if len(data.fileListFiles) > 0 {
+		// Entries added by the user may lie below directories not yet in the list
+		err = fileList.AddMissingStageDirs()
+		if err != nil {
+			return nil, err
+		}
+	}
 
 	fileList.Finalize()
 	return fileList, err
